@@ -134,4 +134,17 @@ def kilobytes (s : List Char) : Except PyErr Int :=
 /-- `utils.megabytes`. -/
 def megabytes (s : List Char) : Except PyErr Int := (kilobytes s).map (· / 1024)
 
+/-- `_TIME_SCALE[c]`, `none` when `c not in _TIME_SCALE`. -/
+def timeScaleOf (c : Char) : Option Nat := lookupNat c.toNat timeScale
+
+/-- `utils.to_seconds` on a `str`: `norm[-1]` must be a time suffix (else `Exception`; IndexError on
+    an empty string), the rest goes through `int()`. -/
+def toSeconds (s : List Char) : Except PyErr Int :=
+  match (norm s).reverse with
+  | [] => .error .indexError
+  | c :: r =>
+    match timeScaleOf c with
+    | none => .error .exception
+    | some k => (ofInt? (pyInt r.reverse)).map (· * (k : Int))
+
 end TmVerif.Units
